@@ -28,7 +28,7 @@ def build(case, seed=0):
         "title": f"Title  atom & <x> {tag}", "id": f"id_atom_{tag}", "version": f"ver  {tag}", "name": f"rootnm{tag}",
         "instance_name": f"concat('in  x', '{tag}')", "submission_url": f"http://sub.example/{tag}", "public_key": f"PUBKEY{tag}",
         "auto_send": rnd.choice(["yes", "true"]), "auto_delete": rnd.choice(["no", "false"]), "style": rnd.choice(["pages", "theme-grid", f"pages cls{tag}"]),
-        "namespaces": f'exns="{NS_URI}"', "attr_plain": f"plain  val{tag}", "attr_ns": f"nsval{tag}", "omit_id": rnd.choice(["yes", "true", "Yes"]),
+        "namespaces": f'exns="{NS_URI}"', "attr_plain": f"plain  val{tag}", "attr_ns": f"nsval{tag}", "omit_id": rnd.choice(["yes", "true", "Yes", "YES", "True", "TRUE", "true()"]),
         "instance_xmlns": f"http://example.com/inst{tag}", "prefix": f"pfx{tag}", "delimiter": f"dlm{tag}",
         "attr_id": f"legacyid{tag}", "attr_version": f"legacyver{tag}",
     }
